@@ -37,9 +37,9 @@ func (u *Unit) describe(v ssa.Value, depth int) string {
 		}
 		return x.Value.ExactString()
 	case *ssa.Parameter:
-		return x.Name()
+		return u.RefName(x.Parent(), x.Name())
 	case *ssa.FreeVar:
-		return x.Name()
+		return u.RefName(x.Parent(), x.Name())
 	case *ssa.Global:
 		return "global:" + x.Name()
 	case *ssa.Function:
@@ -48,7 +48,7 @@ func (u *Unit) describe(v ssa.Value, depth int) string {
 		return x.Name()
 	case *ssa.Alloc:
 		if x.Comment != "" {
-			return "&" + x.Comment
+			return "&" + u.RefName(x.Parent(), x.Comment)
 		}
 		return "&alloc"
 	case *ssa.UnOp:
@@ -59,13 +59,13 @@ func (u *Unit) describe(v ssa.Value, depth int) string {
 				return u.describe(a.X, depth-1) + "." + fieldName(a.X.Type(), a.Field)
 			case *ssa.Alloc:
 				if a.Comment != "" {
-					return a.Comment
+					return u.RefName(a.Parent(), a.Comment)
 				}
 				return "*alloc"
 			case *ssa.Global:
 				return "global:" + a.Name()
 			case *ssa.FreeVar:
-				return a.Name()
+				return u.RefName(a.Parent(), a.Name())
 			case *ssa.IndexAddr:
 				return u.describe(a.X, depth-1) + "[" + u.describe(a.Index, depth-1) + "]"
 			}
@@ -114,7 +114,7 @@ func (u *Unit) describe(v ssa.Value, depth int) string {
 		}
 		if x.Comment != "" {
 			// the source variable this phi merges (e.g. a flag set on one branch)
-			return x.Comment
+			return u.RefName(x.Parent(), x.Comment)
 		}
 		return "phi(" + strings.Join(parts, " | ") + ")"
 	case *ssa.MakeInterface:
